@@ -173,8 +173,9 @@ def ambig_pairs(cfg):
 RX_ALPHA = ["d", "e", "x", "\u00e9", "\u00e8"]
 RX_OTHER = "z"          # stands for every character outside RX_ALPHA (only negated classes match it)
 RX_ATOMS = [("lit", "d"), ("lit", "e"), ("lit", "x"), ("lit", "\u00e9"), ("cls", "de", False), ("cls", "ex", False),
-            ("cls", "e", True), ("cls", "\u00e8\u00e9", False), ("cls", "dx\u00e9", False)]
-RX_REPS = [None, None, None, (0, 1), (0, None), (1, None), (2, 2), (2, None), (1, 2), (3, None), (2, 3)]
+            ("cls", "e", True), ("cls", "\u00e8\u00e9", False), ("cls", "dx\u00e9", False),
+            ("rng", "d-e", "de"), ("rng", "d-ex", "dex"), ("rng", "\u00e8-\u00e9", "\u00e8\u00e9"), ("rng", "^d-e", None), ("any",)]
+RX_REPS = [None, None, None, (0, 1), (0, None), (1, None), (2, 2), (2, None), (1, 2), (3, None), (2, 3), (0, 2), (0, 3), (1, 3)]
 
 
 def _rx_text(n, top=True):
@@ -183,6 +184,10 @@ def _rx_text(n, top=True):
         return n[1]
     if k == "cls":
         return "[%s%s]" % ("^" if n[2] else "", n[1])
+    if k == "rng":
+        return "[%s]" % n[1]
+    if k == "any":
+        return "."
     if k == "cat":
         return "".join(_rx_text(c, False) for c in n[1])
     if k == "alt":
@@ -227,10 +232,14 @@ class _Nfa:
     def build(self, node, a, b):
         """thread `node` between states a and b"""
         k = node[0]
-        if k in ("lit", "cls"):
+        if k in ("lit", "cls", "rng", "any"):
             syms = set(RX_ALPHA + [RX_OTHER])
             if k == "lit":
                 m = {node[1]}
+            elif k == "any":
+                m = syms            # `.`: every character except a line feed, which RX_OTHER does not stand for here
+            elif k == "rng":
+                m = set(node[2]) if node[2] is not None else syms - set("de")
             else:
                 m = set(node[1])
                 m = (syms - m) if node[2] else m
@@ -460,7 +469,7 @@ def _random_grammar(rng):
 # `_` in a random rung (or none), extra terminals used only in the grammar.  The reference tokenizer's specification
 # (rung, literal?, skip?) is derived from the SAME random choices by the documented rules, not from lalrpop's output.
 # ---------------------------------------------------------------------------------------------------------------
-RLEX_LITS = ["if", "fi", "+", "x", "i", "1", "#", "xx"]
+RLEX_LITS = ["if", "fi", "+", "x", "i", "1", "#", "xx", ".", "(", "*", "(*", "i.", "\u00e9", "\u00e9x", "i\u00e9"]
 RLEX_RES = [("ID", "[a-z]+"), ("NUM", "[0-9]+"), ("WORD", "[a-z0-9]+"), ("LETTER", "[a-z]"), ("IS", "i+"), ("FX", "[fx]x?"),
             ("ACC", "é+"), ("DIG", "[12]"), ("PLUSES", r"\++")]
 RLEX_SKIPS = [" +", r"\t", "#[a-z0-9 +]*", r"[ \t]+", "#"]
@@ -495,9 +504,16 @@ def _random_lexer(rng):
                 spec.append((e[1], True, e[1], i, False))
                 alts.append(('"%s"' % e[1], e[1]))
             elif e[0] == "re":
-                items.append('r#"%s"# => %s' % (e[2], e[1]))
-                spec.append((e[1], False, e[2], i, False))
-                alts.append((e[1], e[1]))
+                if rng.random() < 0.3:
+                    # renaming to a quoted name: the grammar then says "K_ID", a name no text matches literally
+                    q = "K_" + e[1]
+                    items.append('r#"%s"# => "%s"' % (e[2], q))
+                    spec.append((q, False, e[2], i, False))
+                    alts.append(('"%s"' % q, q))
+                else:
+                    items.append('r#"%s"# => %s' % (e[2], e[1]))
+                    spec.append((e[1], False, e[2], i, False))
+                    alts.append((e[1], e[1]))
             else:
                 items.append('r#"%s"# => { }' % e[1])
                 spec.append(("", False, e[1], i, True))
